@@ -270,6 +270,21 @@ def _mult_scale(e):
     return max([_mult_scale(k) for k in flat if isinstance(k, tuple)] + [0])
 
 
+def _ds_mult_scale(ir):
+    if not isinstance(ir, tuple):
+        return 0
+    if ir[0] == "ds":
+        return 10
+    if ir[0] == "dsbin":
+        a, b = _ds_mult_scale(ir[2]), _ds_mult_scale(ir[3])
+        return a + b if ir[1] == "*" else (10 if ir[1] == "/" else max(a, b))
+    if ir[0] == "dsscalar":
+        a = _ds_mult_scale(ir[2])
+        lit = 10 if (isinstance(ir[3], tuple) and ir[3][1] == "Number") else 0
+        return a + lit if ir[1] == "*" else (10 if ir[1] == "/" else a)
+    return max([_ds_mult_scale(x) for x in ir[1:] if isinstance(x, tuple)] + [0])
+
+
 def _cap_products(e, typ):
     """Known finding C01-number-product-scale: a product of four or more Number factors needs a DECIMAL scale above 38 and is rejected by
     the engine (RunTimeError 2-1-1-1 'Needed scale 40 ...'); such shapes are not generated (a dedicated probe in C01 reports the finding)."""
@@ -460,6 +475,8 @@ def ds_expr(draw, ci, depth):
             return a
         return a
     out = build(depth)
+    if _ds_mult_scale(out) > 30:   # known finding C01-number-product-scale (see _cap_products)
+        return leaf()
     from verif import diffrun
     if diffrun.rename_nested(out):
         # known finding C01-rename-nested: keep only the single-operator form over input datasets
